@@ -130,8 +130,12 @@ ValidCase(cs) ==
     [] cs.kind = "canon" -> WellFormedCanon(cs.base, cs.ver, cs.rid)
     [] OTHER -> FALSE
 
-(* the twelve references of a pool case *)
-PoolRef(shape, type, rid, ver, text) == [shape |-> shape, type |-> type, rid |-> rid, ver |-> ver, text |-> text]
+(* the references of a pool case: twelve with a literal part, eight around   *)
+(* references WITHOUT one (logical, display-only, type-only, empty) and the   *)
+(* combinations identifier + literal                                          *)
+PoolRefX(shape, type, rid, ver, text, ident, display) ==
+  [shape |-> shape, type |-> type, rid |-> rid, ver |-> ver, text |-> text, ident |-> ident, display |-> display]
+PoolRef(shape, type, rid, ver, text) == PoolRefX(shape, type, rid, ver, text, "", "")
 PoolRefs(cs) ==
   LET t == cs.type  t2 == cs.x  i == cs.rid  v == cs.ver
       rel == t \o "/" \o i
@@ -146,18 +150,29 @@ PoolRefs(cs) ==
         PoolRef("weak",   t2, "", "", t2 \o "/" \o i),                        \*  9 another type
         PoolRef("frag",   t, i, "", ""),                                      \* 10 contained
         PoolRef("weaknt", "", "", "", "#" \o i),                              \* 11 contained, as URI
-        PoolRef("weak",   t, "", "", "urn:uuid:5a17b7c2-e01c-4bc7-b973-31d4156b11d7") >>  \* 12
+        PoolRef("weak",   t, "", "", "urn:uuid:5a17b7c2-e01c-4bc7-b973-31d4156b11d7"),     \* 12
+        PoolRefX("none",   t, "", "", "", "v1", ""),                           \* 13 logical: type + identifier
+        PoolRefX("none",   t, "", "", "", "v1", "Jane Doe"),                   \* 14 logical, with a display
+        PoolRefX("none",   t, "", "", "", "v2", ""),                           \* 15 another identifier
+        PoolRefX("strong", t, i, "", "", "v1", ""),                            \* 16 identifier + typed literal
+        PoolRefX("weak",   t, "", "", rel, "v1", ""),                          \* 17 identifier + URI literal
+        PoolRefX("none",   "", "", "", "", "", "Jane Doe"),                    \* 18 display only
+        PoolRefX("none",   t, "", "", "", "", ""),                             \* 19 type only
+        PoolRefX("none",   "", "", "", "", "", "") >>                          \* 20 empty Reference
 
 (* What the property fixes about a comparison: "T" the two references name  *)
 (* the same resource with the same information; "F" they name different     *)
 (* REST identities; "-" not fixed by the property (base URL ignored or not, *)
-(* fragment vs REST, versioned vs unversioned).                             *)
+(* fragment vs REST, versioned vs unversioned, different logical            *)
+(* identifiers, references without a literal part).  The equivalence laws   *)
+(* are demanded of EVERY pair and triple regardless.                        *)
 RequiredSameI(x, y) ==
   LET plain(r) == r.shape \in {"strong", "weak", "weaknt"}
   IN IF x.ref = y.ref THEN "T"
      ELSE IF ~(plain(x.ref) /\ plain(y.ref) /\ x.id.has /\ y.id.has) THEN "-"
      ELSE IF x.id.type # y.id.type \/ x.id.rid # y.id.rid THEN "F"
      ELSE IF x.id.ver # "" /\ y.id.ver # "" /\ x.id.ver # y.id.ver THEN "F"
+     ELSE IF x.ref.ident # y.ref.ident THEN "-"
      ELSE IF x.id.ver = y.id.ver /\ x.base = y.base THEN "T"
      ELSE "-"
 (* TLC does not memoise [i \in S |-> e]; `f \o <<>>` turns it into a tuple   *)
@@ -427,7 +442,9 @@ ChecksStrongWeak(o, cs, d) ==
                         THEN (IF o.sid.k # "ok" \/ o.wid.k # "ok" THEN "rejected-valid" ELSE "wrong-components") ELSE ""),
         Chk("is", IF valid /\ built /\ weakValid /\ ~(o.isSW.b /\ o.isWS.b /\ o.isSN.b /\ o.isNS.b) THEN "not-same" ELSE ""),
         Chk("is-reflexive", IF (o.isSS.k = "ok" /\ ~o.isSS.b) \/ (o.isWW.k = "ok" /\ ~o.isWW.b) THEN "not-reflexive" ELSE ""),
-        Chk("is-symmetric", IF o.isSW.k = "ok" /\ o.isWS.k = "ok" /\ o.isSW.b # o.isWS.b THEN "not-symmetric" ELSE "") >>
+        Chk("is-symmetric", IF o.isSW.k = "ok" /\ o.isWS.k = "ok" /\ o.isSW.b # o.isWS.b THEN "not-symmetric"
+                            ELSE IF o.isSD.k = "ok" /\ o.isDS.k = "ok" /\ o.isSD.b # o.isDS.b THEN "not-symmetric-vs-literal-less"
+                            ELSE IF Crashed(o.isSD) THEN CrashOf(o.isSD) ELSE IF Crashed(o.isDS) THEN CrashOf(o.isDS) ELSE "") >>
 
 (* ---- "readback": FHIRPath `reference` of the typed reference, of the URI   *)
 (*      reference and of the JSON-parsed reference                            *)
@@ -472,7 +489,10 @@ ChecksWeakRef(o, cs, d) ==
                          ELSE IF w.k = "ok" /\ ~(w.str = Format(LitComps(w)) /\ TextAgrees(w.str, text, d.red)) THEN "accepted-inconsistent"
                          ELSE ""),
         Chk("identity", IF Crashed(o.wid) THEN CrashOf(o.wid) ELSE ""),
-        Chk("is-reflexive", IF Crashed(o.isWW) THEN CrashOf(o.isWW) ELSE IF ~o.isWW.b THEN "not-reflexive" ELSE "") >>
+        Chk("is-reflexive", IF Crashed(o.isWW) THEN CrashOf(o.isWW) ELSE IF ~o.isWW.b THEN "not-reflexive" ELSE ""),
+        (* against a reference without a literal part (display only), in both argument orders *)
+        Chk("is-symmetric", IF Crashed(o.isWD) THEN CrashOf(o.isWD) ELSE IF Crashed(o.isDW) THEN CrashOf(o.isDW)
+                            ELSE IF o.isWD.b # o.isDW.b THEN "not-symmetric" ELSE "") >>
 
 (* ---- "canon": canonical.New, IdentityFromReference,                        *)
 (*      CanonicalIdentity.String, resource.NewCanonicalIdentity               *)
